@@ -9,7 +9,7 @@ from .schemagen import SchemaGen
 CODE = {1: "verdict", 2: "decoded value", 3: "generator status", 4: "model out of fuel", 5: "outside the modelled fragment"}
 
 
-def build_cases(ctx, n, focus, classes, prefix, gen_kwargs=None, docs_per=3, extra_schemas=(), minsized=False, fam="random"):
+def build_cases(ctx, n, focus, classes, prefix, gen_kwargs=None, docs_per=3, extra_schemas=(), minsized=False, fam="random", max_docs=120):
     rng = ctx.rng
     cases = []
     schemas = list(extra_schemas)
@@ -34,6 +34,20 @@ def build_cases(ctx, n, focus, classes, prefix, gen_kwargs=None, docs_per=3, ext
                 docs.append({"doc": d, "cls": cls, "path": path})
         if not docs:
             continue
+        # keep the term sizes bounded: at most max_docs documents, none larger than 1500 bytes, sampled evenly per class
+        docs = [d for d in docs if len(json.dumps(d["doc"], default=str)) <= 1500]
+        if len(docs) > max_docs:
+            bycls = {}
+            for d in docs:
+                bycls.setdefault(d["cls"], []).append(d)
+            keep = []
+            while len(keep) < max_docs and any(bycls.values()):
+                for cls in sorted(bycls):
+                    if bycls[cls] and len(keep) < max_docs:
+                        keep.append(bycls[cls].pop(rng.randrange(len(bycls[cls]))))
+            docs = keep
+        if not docs:
+            continue
         cases.append(Case("%s%d" % (prefix, i), sc, docs, minsized=minsized, fam=fam if i >= len(extra_schemas) else "systematic"))
     return cases
 
@@ -51,6 +65,25 @@ def site_schema(case, path):
         else:
             s = s.get("additionalProperties", {}) if isinstance(s.get("additionalProperties"), dict) else {}
     return dg.resolve(s)
+
+
+def anon_struct_path(case, path):
+    """does the path pass through an object schema that the generator emits as an anonymous struct (no unmarshaler, hence no
+    validation: D25): the inline object value schema of a property-less object's additionalProperties"""
+    dg = Docs(case.schema, None)
+    s = case.schema
+    for p in path:
+        r = dg.resolve(s)
+        if isinstance(p, int):
+            s = r.get("items", {})
+        elif p in r.get("properties", {}):
+            s = r["properties"][p]
+        else:
+            ap = r.get("additionalProperties")
+            s = ap if isinstance(ap, dict) else {}
+            if not r.get("properties") and "$ref" not in s and "object" in types_of(s) and s.get("properties"):
+                return True
+    return False
 
 
 def evaluate(ctx, cases, oracle_classes, expect, what, skip=None):
@@ -130,3 +163,31 @@ def replay(ctx, path):
     print(json.dumps({"gen_ok": c.gen_ok, "gen_err": c.gen_err, "build_ok": c.build_ok, "build_err": c.build_err,
                       "docs": [{"doc": d["doc"], "impl": d.get("obs"), "valid": d.get("valid"), "model_mismatch": d.get("mm")} for d in c.docs],
                       "mismatches": c.mismatches}, indent=1, default=str)[:6000])
+
+
+def replay_findings(ctx):
+    """re-run every listed witness of kind `kitchen` ({schema, doc, expect: ACC|REJ|NOPANIC|BUILD}) on the implementation"""
+    todo = [f for f in ctx.findings() if f.get("witness", {}).get("kind") == "kitchen"]
+    if not todo:
+        return
+    cases = []
+    for i, f in enumerate(todo):
+        w = f["witness"]
+        d = {"doc": w.get("doc"), "cls": "finding", "path": ()}
+        if "raw" in w:
+            d["raw"] = w["raw"]
+        cases.append(Case("kf%d" % i, w["schema"], [d], minsized=w.get("minsized", False), extra_imports=w.get("extra_imports", False), fam="finding"))
+        if w.get("wire"):
+            cases[-1].wire = w["wire"]
+    run_cases(ctx, cases, "findings")
+    for f, c in zip(todo, cases):
+        w = f["witness"]
+        exp = w.get("expect")
+        o = c.docs[0].get("obs") or {}
+        if exp == "BUILD":
+            fails = c.gen_ok and not c.build_ok
+        elif exp == "NOPANIC":
+            fails = o.get("v") in ("PANIC", "FATAL")
+        else:
+            fails = c.build_ok and o.get("v") != exp
+        ctx.known(f, bool(fails), "observed %s %s" % (o.get("v"), (o.get("err") or c.build_err)[:120]))
